@@ -39,10 +39,16 @@ CHECKS = {
  'C10': dict(cat='proof', tech='Rocq proof (decode (encode now s) = normalise now s for every well-formed state, all records, run-length encoders, both format versions; copies identical; rewrite byte-identical under the displayed clock hypothesis, refuted without it) + byte-exact correspondence real->model (re-encode of every content file produced by driven histories) and model->real (generated states installed and rewritten by the tool)',
              text='The content grammar reader/writer pair is transcribed record by record and the round trip is proved compositionally for all states; the transcription is pinned byte for byte against the real writer on reachable states and against the real reader/rewriter on generated boundary-valued states.',
              ref='4/C10'),
+ 'C11': dict(cat='proof', tech='Rocq proof (scan soundness w.r.t. the listing, diff verdict, scan preserves MapOK/ParOK of C06, sync loop converges to all-BLK, rescan fixpoint) + one-step correspondence of the scan model (post-scan content of a real sync killed before its first parity write; diff counters) + random file-system histories judged by the harness tree walk',
+             text='The scan model transcribes scan.c branch by branch and is compared with the real post-scan state (exact positions, states, past hashes) on every generated history; diff/sync/list/check are judged by an independent walk of the tree.',
+             ref='4/C11'),
+ 'C19': dict(cat='proof', tech='Rocq proof (identity rules, inherited hashes give REP never BLK, REP/CHG verified in the very step that makes them BLK, REP mismatch refuses the stripe, pre-hash leaves parity untouched, --force-nocopy, fetch verified by hash) + decoy scenarios on the real binary with parity snapshots and an independent hash of every BLK block',
+             text='Theorems on the scan/sync/pre-hash models; decoys (same name, size, time-stamp, other bytes) on the same disk, other disks and import directories must never be recorded synced without having been read, and with -h no parity byte may change.',
+             ref='4/C19'),
  'C03': dict(cat='proof', tech='Rocq proof (MDS of the 6x251 Cauchy and 3x251 power matrices by polynomial root counting in MathComp; Gauss-Jordan without pivoting never meets a zero pivot; combination enumerator and sorting networks) + unit correspondence of raid_rec/raid_data/raid_check/raid_scan in all decoder families against the known original stripe',
              text='All 3.8e11 minors are settled by theorems, not enumeration; the decoder/validator models are executed against the real raid/*.c (int8, ssse3, avx2, dispatcher) on exhaustive small geometries and boundary-aimed large ones, the oracle being the original stripe.',
              ref='4/C03'),
- 'C02': dict(cat='proof', tech='Rocq proof (tables regenerated from tables.c = closed forms; GF(2^8) field laws; Horner/table generator models = matrix product for all nd<=251) + unit correspondence of all 31 exported variants',
+ 'C02': dict(cat='proof', tech='Rocq proof (tables regenerated from tables.c = closed forms; GF(2^8) field laws; 32/64-bit SWAR lemmas; portable generator models = matrix product for all nd<=251; the 20 SIMD generators of x86.c/x86z.c TRANSLATED on every run into a deep-embedded program and proved by a verified reflective checker) + unit correspondence of all 31 exported variants and of the extracted SIMD interpreter against the silicon',
              text='Theorems over the regenerated tables and the generator models for all geometries and contents; every exported raid_gen* variant (incl. SIMD) is executed against the extracted model and an independent GF reference on a complete per-disk byte basis.',
              ref='4/C02'),
 }
